@@ -233,13 +233,13 @@ def nontrivial(prop, lines, impl):
     if prop == "C01":
         return len(enters) >= 2 and any(l.split()[1] != "0" and not l.startswith(("enter", "exit")) for l in impl if l.split()[0] in ("count", "has", "unsub", "filt", "enter"))
     if prop == "C04":
-        return any(" 1 " in l[8:] for l in lines if l.startswith("sub")) and any(l.startswith("pub") and l.endswith("dead") for l in lines) and len(enters) >= 1
+        return any(" 1 " in l[8:] for l in lines if l.startswith("sub ")) and any(l.startswith("pub") and l.endswith("dead") for l in lines) and len(enters) >= 1
     if prop == "C05":
         return any(l.startswith("panich") for l in impl) or (any("panic" in l for l in lines) and len(enters) >= 2)
     if prop == "C06":
         return sum(1 for l in enters if l.endswith(" 1")) >= 2
     if prop == "C07":
-        return any(l.startswith("sub") and l.split()[5] == "1" for l in lines) and len(enters) >= 2
+        return any(l.startswith("sub ") and l.split()[5] == "1" for l in lines) and len(enters) >= 2
     if prop == "C08":
         return any(l.startswith("hook") for l in impl) and len(enters) >= 1 and any("cancel" in l or "dead" in l for l in lines)
     if prop == "C09":
